@@ -4,10 +4,12 @@ from vlib import gocheck
 
 def main():
     groups = [dict(pkg='compiler/internal/semantics/typechecker', rel='internal/semantics/typechecker', harnesses=['HarnessC11', 'HarnessC11Exact64'])]
+    groups += [dict(pkg='compiler/internal/verifrt/fe', rel='internal/verifrt/fe', harnesses=['HarnessC11Positions%d' % k], max_paths=100000) for k in range(4)]
     rc = gocheck.run('C11', 'model_checking', groups, gocheck.GOSYM_ASSUME + [
         'float formats: f32/f64 IEEE binary32/64 (p=24/53), f128 binary128 (p=113), f256 = 1+19+236 (p=237) as documented in runtime/core/bigint.h',
+        'front-end harness: the position list is the finite set named in the explanation; lossless-ness of a pair is decided by range / significand-width arithmetic in the harness (an oracle independent of the compiler table)',
         'paper argument for the int->float witness family: odd integers >= 2^p+1 are not representable with p significand bits, all |v| <= 2^p are',
-    ], 'checkTypeCompatibility/isImplicitlyCompatible are executed symbolically for every ordered pair of the 17 numeric types (pair = symbolic choice, all 289 explored); for each implicit pair the solver decides whether a value of the source type exists that the target type cannot represent (integer ranges as SMT Int, significand witness family, bit-precise 64-bit cross-check).',
+    ], 'checkTypeCompatibility/isImplicitlyCompatible are executed symbolically for every ordered pair of the 17 numeric types (pair = symbolic choice, all 289 explored); for each implicit pair the solver decides whether a value of the source type exists that the target type cannot represent (integer ranges as SMT Int, significand witness family, bit-precise 64-bit cross-check). FRONT END (HarnessC11Positions0-3): for every ordered pair of the 17 numeric types and each of 12 assignment-like positions (let initialiser, assignment, call argument, return, ok- and error-side return of a result function, struct-literal field, array-literal element, optional target, field assignment through a reference, function-literal argument/return, assignment inside a match arm) the real lexer, parser, collector, resolver and type checker run on the program inside the symbolic interpreter; a program moving S into T without a cast may be accepted only if every value of S is representable in T (reference: integer ranges and significand widths).',
         extra_cov={'exhaustive': True, 'pairs': 289})
     sys.exit(rc)
 
